@@ -12,6 +12,7 @@
 //	R5 selected package-level variables     -> *simrt.NodeVar(key, &X)
 //	R8 time.Sleep / time.After / time.NewTicker -> simrt equivalents (tracked, stoppable)
 //	R9 uuid.NewV4 / uuid.New                -> simrt.NewUUID (seeded, per node)
+//	R10 replica.(*Replica).openFile         -> result wrapped by simrt.WrapDisk (data-file fault seam)
 //	R6 error-inject/default.go              -> hooks calling simrt.Hook
 //	R7 app: RegisterFrontend helper
 //
@@ -51,7 +52,7 @@ func die(format string, a ...interface{}) {
 }
 
 type stats struct {
-	mutex, gostmt, maprange, net, nodevar, timer int
+	mutex, gostmt, maprange, net, nodevar, timer, disk int
 }
 
 func main() {
@@ -141,7 +142,10 @@ func main() {
 	if err := os.WriteFile(filepath.Join(dir, "go.mod"), gm, 0644); err != nil {
 		die("go.mod: %v", err)
 	}
-	fmt.Printf("instrument: mutex=%d go=%d maprange=%d net=%d nodevar=%d timer=%d\n", st.mutex, st.gostmt, st.maprange, st.net, st.nodevar, st.timer)
+	fmt.Printf("instrument: mutex=%d go=%d maprange=%d net=%d nodevar=%d timer=%d disk=%d\n", st.mutex, st.gostmt, st.maprange, st.net, st.nodevar, st.timer, st.disk)
+	if st.disk != 1 {
+		die("R10: expected exactly one replica.openFile returning sparse.NewDirectFileIoProcessor(...), rewrote %d", st.disk)
+	}
 	if st.timer < 50 || st.mutex < 10 || st.gostmt < 20 || st.maprange < 25 || st.net < 5 || st.nodevar < 15 {
 		die("suspiciously few rewrite sites; refusing to continue")
 	}
@@ -196,6 +200,21 @@ func rewriteFile(fset *token.FileSet, p *packages.Package, f *ast.File, rel stri
 
 	pre := func(c *astutil.Cursor) bool {
 		switch n := c.Node().(type) {
+		case *ast.FuncDecl:
+			// R10
+			if p.PkgPath == modPath+"/replica" && n.Name.Name == "openFile" && n.Recv != nil && n.Body != nil {
+				for _, s := range n.Body.List {
+					if rs, ok := s.(*ast.ReturnStmt); ok && len(rs.Results) == 1 {
+						if call, ok := rs.Results[0].(*ast.CallExpr); ok {
+							if se, ok := call.Fun.(*ast.SelectorExpr); ok && se.Sel.Name == "NewDirectFileIoProcessor" {
+								rs.Results[0] = &ast.CallExpr{Fun: sel("WrapDisk"), Args: []ast.Expr{call}}
+								st.disk++
+								changed = true
+							}
+						}
+					}
+				}
+			}
 		case *ast.SelectorExpr:
 			// R5 via pkg.Name
 			if obj := info.Uses[n.Sel]; obj != nil {
